@@ -178,6 +178,7 @@ class Executor:
         self.cur_fn = []
         self._clos = None
         self.const_models = []
+        self.unsupported_paths = []
         self.summarize = set()     # MIR names of pure bool-returning functions returned as one merged term
         self.variant_owner = {}
         for en, vs in self.L.enums.items():
@@ -222,6 +223,12 @@ class Executor:
             except Panic as p:
                 out = ('panic', p.msg)
             except Infeasible:
+                out = None
+            except Unsupported as u:
+                # replay-based exploration: the other paths are unaffected; the run as a whole stays inconclusive
+                # unless a (natively replayed) violation is found elsewhere
+                if not self.pending and not results and not work: raise
+                self.unsupported_paths.append(str(u)[:300])
                 out = None
             for alt in self.pending:
                 work.append(alt)
